@@ -1001,6 +1001,33 @@ def compare(a, b, max_conds=8):
     return worst, why
 
 
+def exposed_syms(t):
+    """names of sym atoms reachable without passing through an unmodelled (opaque, non-package) call"""
+    out = set()
+
+    def walk_t(x):
+        for a in x.atoms():
+            walk_a(a)
+
+    def walk_arg(x):
+        if isinstance(x, Term):
+            walk_t(x)
+        elif isinstance(x, tuple):
+            for y in x:
+                walk_arg(y)
+
+    def walk_a(a):
+        if a.kind == 'sym':
+            out.add(a.args[0])
+            return
+        if a.kind == 'call' and a.args[0] not in MODELLED and a.args[0] not in PACKAGE_HEADS:
+            return
+        for x in a.args:
+            walk_arg(x)
+    walk_t(t)
+    return out
+
+
 def _compare_flat(a, b):
     if a.key == b.key:
         return EQUAL, None
@@ -1011,6 +1038,13 @@ def _compare_flat(a, b):
     aa, ab = all_atoms(a), all_atoms(b)
     only_a = [x for k, x in aa.items() if k not in ab]
     only_b = [x for k, x in ab.items() if k not in aa]
+    # an input symbol that one side depends on directly (not merely inside an opaque call) and the other
+    # side never mentions: the two are different functions of the inputs
+    ea, eb = exposed_syms(a), exposed_syms(b)
+    sa_all = {x.args[0] for x in aa.values() if x.kind == 'sym'}
+    sb_all = {x.args[0] for x in ab.values() if x.kind == 'sym'}
+    if (ea - sb_all) or (eb - sa_all):
+        return DIFFERENT, 'depends on different inputs: ' + ', '.join(sorted((ea - sb_all) | (eb - sa_all)))
     for side, other in ((only_a, only_b), (only_b, only_a)):
         for x in side:
             if x.kind == 'call' and x.args[0] not in MODELLED and x.args[0] not in PACKAGE_HEADS:
